@@ -211,7 +211,12 @@ func draw(t *rapid.T) chain.Case {
 	// rule is broken as well (a link without subject, a foreign subject, a rewired audience ...). Such a chain
 	// must be denied anyway; if some path lets it through, it must not have skipped the command rule on the way
 	if nd > 0 && rapid.IntRange(0, 5).Draw(t, "crossfamily") == 3 {
-		chain.ApplyPrincipalDeviation(t, &cs, rapid.SampledFrom([]string{"subject-undef", "subject-undef", "subject-other", "rewire-aud", "rewire-iss", "last-not-root", "subject-other-run"}).Draw(t, "crossdev"))
+		chain.ApplyPrincipalDeviation(t, &cs, rapid.SampledFrom([]string{"subject-undef", "subject-undef", "subject-other", "rewire-aud", "rewire-iss", "last-not-root", "subject-other-run", "reverse", "reverse", "rotate"}).Draw(t, "crossdev"))
+	}
+	if rapid.IntRange(0, 9).Draw(t, "listorder") == 6 {
+		// the proofs listed the other way round (root first), with or without a command deviation: whatever an
+		// implementation makes of the order, no link widens what it received
+		chain.ApplyPrincipalDeviation(t, &cs, "reverse")
 	}
 	return cs
 }
